@@ -377,7 +377,7 @@ class Gen:
         for route in (routes or self.routes[target]):
             if (route["methods"] or ["GET"])[0] == "GET":
                 continue
-            for st in self.rng.sample(sts, min(2, len(sts))):
+            for st in sts:
                 r = self.req(target, route)
                 cases.append(self.case(target, st, [dict(r) for _ in range(8)]))
         return cases
